@@ -143,6 +143,9 @@ impl Watch {
         if self.failed() {
             return vec![];
         }
+        if let Some(c) = self.calls.as_mut() {
+            c.push(WCall::Send(p.clone()));
+        }
         let what = format!("send({})", p.short());
         let st_before = self.m.st;
         let vect = self.vectored;
@@ -677,6 +680,9 @@ impl Watch {
         if self.failed() {
             return vec![];
         }
+        if let Some(c) = self.calls.as_mut() {
+            c.push(WCall::Timer(k));
+        }
         let what = format!("timer({k:?})");
         let st_before = self.m.st;
         let Some(evs) = self.guarded(&what, &[], |ep| ep.timer(k)) else { return vec![] };
@@ -720,6 +726,9 @@ impl Watch {
     pub fn closed(&mut self) -> Vec<Ev> {
         if self.failed() {
             return vec![];
+        }
+        if let Some(c) = self.calls.as_mut() {
+            c.push(WCall::Closed);
         }
         let what = "notify_closed()".to_string();
         let st_before = self.m.st;
@@ -785,9 +794,15 @@ impl Watch {
         if self.failed() {
             return None;
         }
+        if let Some(c) = self.calls.as_mut() {
+            c.push(WCall::Acquire);
+        }
         let what = "acquire()".to_string();
         let r = self.guarded(&what, &["C08"], |ep| ep.acquire())?;
         self.note(format!("{what} -> {:?}", r));
+        if let Some(t) = self.trace.as_mut() {
+            t.push((format!("{what} -> {:?}", r), vec![]));
+        }
         match r {
             Ok(id) => {
                 if id == 0 || id > max_id(self.pid32) || self.m.ids.contains(&id) {
@@ -815,9 +830,15 @@ impl Watch {
         if self.failed() {
             return false;
         }
+        if let Some(c) = self.calls.as_mut() {
+            c.push(WCall::Register(id));
+        }
         let what = format!("register({id})");
         let Some(r) = self.guarded(&what, &["C08"], |ep| ep.register(id)) else { return false };
         self.note(format!("{what} -> {:?}", r));
+        if let Some(t) = self.trace.as_mut() {
+            t.push((format!("{what} -> {:?}", r), vec![]));
+        }
         let should = id >= 1 && id <= max_id(self.pid32) && !self.m.ids.contains(&id);
         if r.is_ok() != should {
             self.flag(&["C08"], "register-result", format!("{what} returned {:?}, expected {}", r, if should { "Ok" } else { "Err" }));
@@ -835,6 +856,9 @@ impl Watch {
     pub fn release(&mut self, id: u32) -> Vec<Ev> {
         if self.failed() {
             return vec![];
+        }
+        if let Some(c) = self.calls.as_mut() {
+            c.push(WCall::Release(id));
         }
         let what = format!("release({id})");
         let st_before = self.m.st;
@@ -854,6 +878,9 @@ impl Watch {
     pub fn erase(&mut self, id: u32) -> Vec<Ev> {
         if self.failed() {
             return vec![];
+        }
+        if let Some(c) = self.calls.as_mut() {
+            c.push(WCall::Erase(id));
         }
         let what = format!("erase_stored_publish({id})");
         let st_before = self.m.st;
@@ -876,6 +903,9 @@ impl Watch {
     pub fn set_ping(&mut self, ms: Option<u64>) -> Vec<Ev> {
         if self.failed() {
             return vec![];
+        }
+        if let Some(c) = self.calls.as_mut() {
+            c.push(WCall::SetPing(ms));
         }
         let what = format!("set_pingreq_send_interval({ms:?})");
         let st_before = self.m.st;
@@ -912,6 +942,9 @@ impl Watch {
     pub fn crash_restore(&mut self, mangle: ExportMangle) {
         if self.failed() {
             return;
+        }
+        if let Some(c) = self.calls.as_mut() {
+            c.push(WCall::Crash(mangle));
         }
         let what = format!("crash+restore({mangle:?})");
         let role = self.role;
